@@ -4,6 +4,7 @@ import (
 	"bytes"
 	"encoding/json"
 	"fmt"
+	"hash/crc32"
 	"io"
 	"math/rand"
 	"os"
@@ -628,8 +629,14 @@ func c06ManyFiles(r *vlib.Run) {
 		query := "from CONS select g,count($line) group by g interval 2 outfile " + out
 		args := append(fl.ClientArgs(), "--logger", "stdout", "--logLevel", "error", "--noColor", "--files", filepath.Join(dir, "*.log"), "--query", query)
 		start := time.Now()
-		// (the client is idle while the server works its way through the files: hung only if the server is idle too)
-		res := vlib.RunCmd(vlib.Cmd{Path: r.Bin("dmap"), Args: args, Env: fl.ClientEnv(), Dir: fl.Home, Watchdog: 300 * time.Second, Busy: vlib.PidsBusy(fl.Servers[0].D.Pid())})
+		// (client and server are both idle most of the time - the aggregator pauses 100 ms at every switch of file, 231
+		// files take 23 s of pauses -, so progress is read from what the run produces: the interim result in the outfile
+		// (interval 2) must keep changing; a run whose interim result stands still while everything is idle is hung)
+		progress := func() int64 {
+			b, _ := os.ReadFile(out)
+			return int64(crc32.ChecksumIEEE(b)) + int64(len(b))<<32
+		}
+		res := vlib.RunCmd(vlib.Cmd{Path: r.Bin("dmap"), Args: args, Env: fl.ClientEnv(), Dir: fl.Home, Watchdog: 300 * time.Second, Busy: vlib.PidsBusy(fl.Servers[0].D.Pid()), OutProgress: progress})
 		r.Eval(fmt.Sprintf("many-files|%d", nSmall+1))
 		r.Count("runs_over_more_files_than_the_aggregator_queue_holds", 1)
 		r.Max("many_files_run_longest_s", int(time.Since(start).Seconds()))
